@@ -27,20 +27,6 @@ ALLOC_BUDGET_COUNT = 0xFFFFFF  # elements: the largest frame any header can anno
 
 # tabled discharges: (function path suffix, site kind) -> reason.  One named symbol + one-line reason each.
 TABLED = {
-    # (function path suffix, site kind): (number of such sites in the function, reason)
-    ("util::functions::base::read_c_string_to_vec", "overflow_add"): (1, "count is incremented only while count != CSTRING_LARGEST_ALLOWED (256): bounded by the loop condition"),
-    ("util::read_c_string_to_vec", "overflow_add"): (1, "count bounded by the loop condition (256)"),
-    ("util::tokio_impl::tokio_read_c_string_to_vec", "overflow_add"): (1, "count bounded by the loop condition (256)"),
-    ("util::async_std_impl::astd_read_c_string_to_vec", "overflow_add"): (1, "count bounded by the loop condition (256)"),
-    ("util::functions::shared::packed_guid_size", "overflow_add"): (1, "amount_of_bytes and i are incremented at most 8 times (while i < 8)"),
-    ("util::functions::shared::packed_guid_size", "overflow_mul"): (1, "i < 8 by the loop condition, i * 8 < 64"),
-    ("util::functions::shared::packed_guid_size", "overflow_shl"): (1, "i < 8 by the loop condition, shift < 64"),
-    ("util::functions::shared::monster_move_spline_size", "overflow_add"): (2, "in-memory-size axiom: adds 4 or 12 per element of a live slice"),
-    ("datetime_vanilla_tbc_wrath::predicted_weekday", "overflow_sub"): (2, "y/4 >= y/100 for every u8 y; `leap_year_days -= 1` is guarded by `leap_year_days > 0`"),
-    ("datetime_vanilla_tbc_wrath::predicted_weekday", "overflow_add"): (4, "leap_year_days <= 255/4 + 1; days_from_years <= 255*365+64, days_from_month <= 336, month_day <= 255: every sum is < 100000 in u32"),
-    ("datetime_vanilla_tbc_wrath::predicted_weekday", "panic:panic_fmt"): (1, "unreachable!() arm of `match x % 7` for x >= 7"),
-    ("helper::update_mask_common::inners::read_inner", "overflow_mul"): (1, "index < header.len() <= amount_of_blocks (u8): index * 32 <= 8160 fits u16"),
-    ("helper::update_mask_common::inners::read_inner", "overflow_add"): (1, "index * 32 + bit <= 8160 + 31 fits u16"),
 }
 
 
@@ -336,6 +322,19 @@ class SiteChecker:
                 if kind == "overflow_add" and ty == "usize" and b is not None and b[1] <= (1 << 56) and self.memory_like(n[5]):
                     reasons.append("in-memory-size axiom (accumulated size of objects held in memory)")
                     continue
+                # the target's range where the update stands (a loop counter's invariant, a condition that guards the update)
+                ta_ = ty_range(ty)
+                if a is not None and b is not None and ta_ is not None and a != ta_:
+                    if want == "Add":
+                        r_ = (a[0] + b[0], a[1] + b[1])
+                    elif want == "Sub":
+                        r_ = (a[0] - b[1], a[1] - b[0])
+                    else:
+                        c_ = [a[0] * b[0], a[0] * b[1], a[1] * b[0], a[1] * b[1]]
+                        r_ = (min(c_), max(c_))
+                    if ta_[0] <= r_[0] and r_[1] <= ta_[1]:
+                        reasons.append("bounded-target")
+                        continue
                 return False, f"accumulator `{H.short(n, maxlen=80)}`: no bound on {tgt}"
             if kind == "overflow_sub" and self.is_prefix_size(n, env):
                 reasons.append("prefix-size (current_size is the size of members already read from the body_size-long slice)")
@@ -480,11 +479,15 @@ class SiteChecker:
         names = {H.local_name(x) for x in H.walk(arg) if H.tag(x) == "local"}
         for nm in names:
             b = env.get("#guard:" + nm, seq)
-            if b:
+            if b and b[0] != "dead":
                 return f"allocation guard on `{nm}` dominates the call"
         return None
 
     def check_panic_call(self, span, tgt, mac, ga=""):
+        nodes = self.nodes_for_call(span)
+        dead = [env.get("#dead", seq) for n, env, loops, seq in nodes]
+        if nodes and all(d is not None and d[0] == "dead-arm" for d in dead):
+            return True, "unreachable-arm: " + dead[0][1]
         if INDEX_CALL.search(tgt):
             # Index on Vec/slice/array: only the full range cannot panic
             if "RangeFull" in ga:
